@@ -13,6 +13,8 @@ import (
 	"time"
 )
 
+var noSlice = os.Getenv("GOVC_NO_SLICE") != ""
+
 type KnownFinding struct {
 	Property   string `json:"property"`
 	Obligation string `json:"obligation"`
@@ -201,7 +203,18 @@ func cmdCheck(args []string) int {
 			if o.Expect == "sat" {
 				to = 3 * time.Second
 			}
-			o.Result = Solve(o.Query, smtDir, fmt.Sprintf("q%04d_%s", i, sanitize(o.Name)), to, o.Expect != "sat")
+			if o.Expect == "unsat" && !noSlice {
+				if sq, ok := sliceQuery(o.Query); ok && len(sq) < len(o.Query)*3/4 {
+					r := Solve(sq, smtDir, fmt.Sprintf("s%04d_%s", i, sanitize(o.Name)), 3*time.Second, true)
+					if r.Verdict == "unsat" {
+						r.Solver += "/sliced"
+						o.Result = r
+					}
+				}
+			}
+			if o.Result.Verdict != "unsat" {
+				o.Result = Solve(o.Query, smtDir, fmt.Sprintf("q%04d_%s", i, sanitize(o.Name)), to, o.Expect != "sat")
+			}
 			switch {
 			case o.Expect == "unsat" && o.Result.Verdict == "unsat":
 				o.Status = "discharged"
